@@ -55,6 +55,11 @@ func newHarnessEnv(now gotime.Time, configText string, env map[string]string, cp
 	if err := os.MkdirAll(filepath.Join(dir, "cfg"), 0o755); err != nil {
 		panic("harness: " + err.Error())
 	}
+	// the physical path: klog makes relative arguments absolute through the working directory,
+	// which the OS reports without symbolic links
+	if real, err := filepath.EvalSymlinks(dir); err == nil {
+		dir = real
+	}
 	cfg, err := app.NewConfig(
 		app.FromDeterminedValues{NumCpus: cpus},
 		app.FromEnvVars{GetVar: func(k string) string { return env[k] }},
